@@ -52,7 +52,7 @@ Proof.
   destruct (compile_pattern_re (normalize_pattern raw raw)) as [r|] eqn:HC; [|intros H; discriminate H].
   destruct (re_match r s) as [[e rest]|] eqn:HM; [|intros H; discriminate H].
   destruct rest as [|c rest]; [|intros H; discriminate H].
-  intros _. exists r, e. split; reflexivity.
+  intros _. exists r, e. split; [reflexivity|exact HM].
 Qed.
 
 Theorem gate_rejects_equal_key : forall today raw old new,
